@@ -11,6 +11,7 @@ R3.6  field names are de-duplicated soundly (test / rename until unused / record
 R3.7  sibling agreement: _resolve_one_of and _resolve_any_of (two copies of one routine) return the same results
 R3.10 every Python type chosen for a string format encodes back to a JSON string (str or a leaf type with a text-producing unstructure hook)
 R3.9  the generated get_mapping() has an entry for every discriminator value of the spec (a conforming document with an aliased value decodes)  [= R14.5]
+R3.13 a field the Meta map does not list has the same wire key in both directions: its own name (no derived key on one side)
 R3.12 union variants are tried in declared order (a document of the first variant is not captured by a later, laxer one)          [= R14.9]
 R3.11 wire keys / discriminator values are emitted as literals that evaluate to the spec's own string (non-BMP characters survive)  [= R15.5]
 R3.8  nullability written as a type array is read from the document node at every sibling site (never from IRSchema.type, a string)
@@ -32,6 +33,7 @@ def run(repo: Repo, rep: Report, tier: str) -> None:
     cv.rule_leaf_agreement(repo, rep, "R3.1")
     cv.rule_hook_pairs(repo, rep, "R3.3")
     cv.rule_rename_plumbing(repo, rep, "R3.4")
+    cv.rule_unlisted_field_keeps_its_name(repo, rep, "R3.13")
     cv.rule_recursive_registration(repo, rep, "R3.5")
 
     # ---------------------------------------------------------------- R3.2
